@@ -5,6 +5,7 @@ import McpModel.EventStore.Props
 import McpModel.Conn.Props
 import McpModel.Conn.Deadlock
 import McpModel.Conn.Variant
+import McpModel.SessClose.Props
 import McpModel.Bearer.Props
 import McpModel.KeepAlive.Props
 import McpModel.KeepAlive.CloseProps
